@@ -246,7 +246,7 @@ Definition k_eval (km : kmaps) (a : kargs) (hsport hdport : N) (c : kctx) (index
     inl (if negb (N.land value mask =? 0) then good else c)
   else if t =? K_MatchType_DomainSet then k_match_domain km a c index
   else if t =? K_MatchType_ProcessName then
-    inl (if negb (byte_at flag 7 mod 256 =? 0) &&
+    inl (if negb (byte_at flag 7 mod 256 =? 0) && negb (byte_at flag 2 mod 256 =? 0) &&   (* is_wan && *(const __u8 *)pname *)
             equal16 (le64 e 0) (le64 e 8)
                     (byte_at flag 2 + 4294967296 * byte_at flag 3) (byte_at flag 4 + 4294967296 * byte_at flag 5)
          then good else c)
@@ -368,11 +368,10 @@ Definition decodes (alloc : N) (e : list N) (m : mset) : Prop :=
   (m_type m = MatchType_ProcessName -> le64 e 0 = le64 (m_pname m) 0 /\ le64 e 8 = le64 (m_pname m) 8) /\
   (m_type m = MatchType_Dscp -> ms_dscp e = m_dscp m).
 
-(* the process-name hypothesis of C02_kscan_scan_partial: the kernel's guard (is_wan) and the userspace guard (first byte of
-   the name non-zero) coincide for this probe, or no process-name match-set carries exactly the probe's sixteen bytes *)
-Definition pname_guard_ok (ms : list mset) (pk : packet) (wan : bool) : bool :=
-  Bool.eqb wan (negb (nth 0 (p_pname pk) 0 =? 0)) ||
-  forallb (fun m => negb (m_type m =? MatchType_ProcessName) || negb (list_eqb (nth16 (m_pname m)) (p_pname pk))) ms.
+(* a probe of the property's quantifier: "LAN (MAC, no process name) and WAN (process name)" - the LAN hook
+   (do_tproxy_lan_ingress) passes `route_flag[8] = {}` and never copies a name; wf_packet is C01's range condition *)
+Definition probe_ok (pk : packet) (wan : bool) : bool :=
+  wf_packet pk && (wan || forallb (N.eqb 0) (p_pname pk)).
 
 (* a bitmap as the domain matcher returns it: MaxMatchSetLen/32 words of 32 bits *)
 Definition bitmap_ok (w : list N) : bool := Nat.eqb (List.length w) 32 && forallb (fun x => x <? 2 ^ 32) w.
